@@ -98,6 +98,8 @@ let handle (cmd : string) (args : t list) : t option =
   match cmd, args with
   | "mut-skip", _ -> Some (L [A "skip"])
   | "delete", [d; cs] -> Some (final_sexp (delete_nodes (coords_of_sexp cs) (node_of_sexp d)))
+  | "delete", [d; cs; L mg] ->
+    Some (final_sexp (delete_nodes_mg (List.map (fun o -> n_of_int (int_atom o)) mg) (coords_of_sexp cs) (node_of_sexp d)))
   | "delete-spec", [d; cs] ->
     let d = node_of_sexp d in
     let ps = List.map (fun p -> (p.pc_parent, p.pc_ref)) (del_order (coords_of_sexp cs)) in
